@@ -177,6 +177,7 @@ type world struct {
 	panics           []string
 	handled          []string
 	wireInv, wireRet uint64
+	shutInv          uint64 // stamp at which the provider's Shutdown was invoked (0: never)
 	refData          metricdata.ResourceMetrics // what a plain reader on the same provider collects at quiescence
 	refErr           error
 }
@@ -288,6 +289,16 @@ func (engine) Body(r *simdrv.Run) {
 	wireSleep := []time.Duration{0, time.Millisecond}[r.Cfg(2)]
 	if lateWire {
 		optDesc = append(optDesc, fmt.Sprintf("provider-created-late(after %v)", wireSleep))
+	}
+	// In one run in six (of those that have their provider from the start) a task shuts the provider down
+	// after a drawn number of its turns, while scrapes and measurements go on: scrapes that had not returned
+	// by then are only required not to panic and not to make Gather fail (after seeded change C18-l, which
+	// empties the collector's family cache when a scrape finds its reader shut down - under a scrape that is
+	// still walking the data it collected before).
+	withShutdown := !lateWire && r.Cfg(6) == 0
+	shutAfter := r.Cfg(12)
+	if withShutdown {
+		optDesc = append(optDesc, fmt.Sprintf("provider-shutdown(after %d turns)", shutAfter))
 	}
 	r.Res.Config["options"] = strings.Join(optDesc, ",")
 	var idesc []string
@@ -527,6 +538,17 @@ func (engine) Body(r *simdrv.Run) {
 			}
 		})
 	}
+	if withShutdown {
+		sim.Spawn("shutter", func() {
+			for i := 0; i < shutAfter; i++ {
+				simrt.Yield(simdrv.PtOp)
+			}
+			w.shutInv = sim.Stamp()
+			r.Fault("provider-shutdown-during-scrapes")
+			err := mp.Shutdown(context.Background())
+			r.Log("%d provider-shutdown err=%v (invoked %d)", sim.Stamp(), err, w.shutInv)
+		})
+	}
 	sim.Spawn("closer", func() {
 		sim.JoinOthers(simdrv.PtOp)
 		doScrape("closer")
@@ -595,6 +617,9 @@ func (engine) Body(r *simdrv.Run) {
 		if sc.err != nil {
 			r.Violate(prop, "gather-error", "gather-error", "Gather (task %s, %d..%d) failed: %v", sc.task, sc.inv, sc.ret, sc.err)
 			continue
+		}
+		if w.shutInv != 0 && sc.ret > w.shutInv {
+			continue // the provider was being, or had been, shut down: what such a scrape holds is not specified here
 		}
 		for _, b := range sc.badH {
 			r.Violate(prop, "inconsistent-series", "inconsistent-series", "scrape %d..%d: %s", sc.inv, sc.ret, b)
@@ -782,6 +807,16 @@ func (engine) Body(r *simdrv.Run) {
 				}
 			}
 		}
+	}
+	if w.shutInv != 0 {
+		// a scrape that arrives after the provider's Shutdown reports exactly this, by design
+		kept := w.handled[:0]
+		for _, h := range w.handled {
+			if !strings.Contains(h, "reader is shutdown") {
+				kept = append(kept, h)
+			}
+		}
+		w.handled = kept
 	}
 	if lateWire {
 		// a scrape that arrives before the exporter has a provider reports exactly this, by design
